@@ -1062,6 +1062,9 @@ func (self *Fork) doChunks(state MetadataState, getBindings func() MarshalerMap)
 			lockAquired <- struct{}{}
 			// After a restart this can run again for a fork whose split
 			// was already cleaned up.  Don't start the report over.
+			if self.node.vdrAcrossSymlink() {
+				return
+			}
 			if partial := self.getPartialKillReport(); partial == nil || !partial.Split {
 				self.cleanSplitTemp(partial)
 			}
